@@ -233,6 +233,26 @@ def _r7(chk: Check) -> None:
                     '%d returning path(s) hand the %s on unchanged' % (n_paths, 'callee\'s result' if kind == 'call' else 'looked-up value'))
     if n == 0:
         raise AnalysisError('anchor vanished: no node class calls or looks up through the scoped names')
+    # ... and out of the interpreter: eval hands the host the value of the program, not a re-formatted one
+    q = 'smartquery.sq_parser.SqParser.eval'
+    fi = F.func(q)
+    problems = []
+    n_ret = 0
+    for p in SymExec(F, fi).run():
+        if not p.normal:
+            continue
+        evs = [e for e in p.events if e.kind == 'call' and e.resolved is None and isinstance(freeze(e.func), tuple)
+               and freeze(e.func)[:1] == ('attr',) and freeze(e.func)[2] == om.EVAL]
+        ret = p.outcome[1]
+        if not evs:
+            if ret != ('const', None):
+                problems.append('without evaluating a tree eval returns %s' % show(ret))
+            continue
+        n_ret += 1
+        if A.strip_ids(ret) != A.strip_ids(freeze(evs[-1].result)):
+            problems.append('eval returns %s, not the value `%s` produced' % (show(ret), evs[-1].text()))
+    chk.require(not problems and n_ret, R7, q, fi.where, '; '.join(sorted(set(problems))[:3]) or
+                '%d returning path(s): the value of the program is returned as it is' % n_ret)
 
 
 def _r6(chk: Check) -> None:
